@@ -86,11 +86,17 @@ def make_config(seed, tier="quick"):
     # disconnects / closes / reconnects overlapping the reply
     rr = random.Random(seed ^ 0xC1152)
     if not speak_first and rr.random() < 0.10:
-        cfg.update(prefix="active", eut_out=rr.choice([4, 6]), prefill_out=True, n_stim=max(cfg["n_stim"], 4),
-                   stim_classes=["frame", "frame", "app_disconnect", "peer_close", "send", "peer_reconnect"],
+        cfg.update(prefix="active", eut_out=rr.choice([4, 6]), prefill_out=True, n_stim=max(cfg["n_stim"], 5),
+                   stim_classes=rr.choice([["frame", "frame", "app_disconnect", "peer_close", "send", "peer_reconnect"],
+                                           ["frame", "frame", "app_disconnect", "peer_reconnect"]]),
                    frame_types=["2", "2", "D", "1"], defects=["none", "none", "none", "seq_high"],
                    hook_names=["should_replay"], p_hook=0.8, p_overlap=rr.choice([0.3, 1.0]),
                    profile="reply_overlap")
+        if rr.random() < 0.6:
+            # the sharp variant: stimuli keep coming while the reply is parked (a disconnect, then the peer's
+            # reconnect), the parked hook is released late - the acceptor is the role that gets a new connection
+            # while its reader task is still inside the old reply
+            cfg.update(eut_role="acceptor", reply_stimuli=True, w_hook_done=0.4, p_overlap=0.0)
         if cfg["hb"] < 30 and rr.random() < 0.5:
             cfg.update(p_hook_stall=0.3, hook_stall_s=rr.choice([1.5, 4.0]) * cfg["hb"])
     return cfg
@@ -256,7 +262,19 @@ class GateSim(PeerSim):
             if sent["frame"] == raw:
                 src = sent
                 break
+        # "dropped since" from the endpoint's side: the endpoint has taken a later connection for its own (a peer
+        # connection the endpoint turned away, or has not accepted yet, does not make the frame's connection stale:
+        # a frame read while the endpoint's own disconnect() is still suspended belongs to that connection)
+        w = self.eut._socket_writer
+        cur_cid = getattr(getattr(getattr(w, "transport", None), "conn", None), "cid", None) if w is not None else None
+        own = [c.cid for c in self.net.conns]
+        stale = False
         if src is not None and src.get("conn") is not None and src["conn"] < self.peer.n_connections:
+            frame_cid = own[src["conn"] - 1] if 0 < src["conn"] <= len(own) else None
+            stale = cur_cid is not None and frame_cid is not None and cur_cid > frame_cid
+            if not stale:
+                self.probe("frame_of_the_closing_connection_processed_while_the_peer_already_reconnects")
+        if stale:
             self.flag("stale-input", f"C11/frame-of-a-dropped-connection-processed/type={d.get('35')}/{self.ctx()}",
                       f"frame 35={d.get('35')} 34={d.get('34')} that the peer sent on connection #{src['conn']} (dropped since) "
                       f"was decoded and processed on connection #{self.peer.n_connections}")
@@ -310,6 +328,10 @@ class GateSim(PeerSim):
                 (self.cur is None or self.cur.get("n_overlap", 0) < 3) and \
                 self.eut.connection_state >= ConnectionState.NETWORK_CONN_ESTABLISHED:
             out.append((("overlap",), 1.5))
+        elif cfg.get("reply_stimuli") and self.prefix_done and self.pending_hooks and self.n_stim < cfg["n_stim"] and \
+                (self.cur is None or self.cur.get("n_overlap", 0) < 4):
+            # (scenario reply_overlap, sharp variant: stimuli while should_replay() is parked, whatever the state)
+            out.append((("overlap",), 2.5))
         if not self.prefix_done:
             self.drive_prefix()
             return out
@@ -337,6 +359,12 @@ class GateSim(PeerSim):
                 # in the state hook (the state is already LOGON_INITIAL_SENT)
                 return ["frame", "A", "none", 0, 1]
             classes = [c for c in classes if c in ("app_disconnect", "peer_close", "send")] or ["app_disconnect"]
+            if cfg.get("reply_stimuli"):
+                # while the reply is parked: the session is ended by another task, then the peer comes back
+                classes = ["peer_reconnect"] if not self.peer.connected else ["app_disconnect", "app_disconnect", "send"]
+        elif cfg.get("reply_stimuli") and self.peer.connected and \
+                self.eut.connection_state == ConnectionState.ACTIVE:
+            classes = ["frame"]
         cls = r.choice(classes)
         if cls in ("frame", "frame_burst") and not self.peer.connected:
             cls = "peer_reconnect" if (self.eut_role == "acceptor" and r.random() < 0.7) else "send"
@@ -386,7 +414,8 @@ class GateSim(PeerSim):
         if a[0] == "stim":
             return self.cur is None and self.quiet()
         if a[0] == "overlap":
-            return self.cur is not None or bool(self.cfg.get("mid_hook_stimuli") and self.pending_hooks)
+            return self.cur is not None or bool((self.cfg.get("mid_hook_stimuli") or self.cfg.get("reply_stimuli"))
+                                                and self.pending_hooks)
         return False
 
     def fire_family(self, a):
